@@ -309,6 +309,34 @@ def wire (m : Msg) : Bytes := payload m.text m.content
 def expected (toClient : Bool) (msgs : List Msg) : List (Bool × Bytes) :=
   (msgs.filter (fun m => m.fromClient = !toClient && !m.dropped)).map (fun m => (m.text, wire m))
 
+/-- pings (`true`) and pongs (`false`) handed to the peer on side `toClient`, in order -/
+def controlsOut (toClient : Bool) : List Out → List (Bool × Bytes)
+  | [] => []
+  | .sendPing tc p :: rest => if tc = toClient then (true, p) :: controlsOut toClient rest else controlsOut toClient rest
+  | .sendPong tc p :: rest => if tc = toClient then (false, p) :: controlsOut toClient rest else controlsOut toClient rest
+  | _ :: rest => controlsOut toClient rest
+
+def WsEv.isClose : WsEv → Bool
+  | .close _ _ _ => true
+  | _ => false
+
+def wsControls : List WsEv → List (Bool × Bytes)
+  | [] => []
+  | .ping p :: rest => (true, p) :: wsControls rest
+  | .pong p :: rest => (false, p) :: wsControls rest
+  | _ :: rest => wsControls rest
+
+/-- pings / pongs the peer on side `fromClient` sent, in order of arrival -/
+def controlsIn (fromClient : Bool) : List Ev → List (Bool × Bytes)
+  | [] => []
+  | .data fc evs :: rest => if fc = fromClient then wsControls evs ++ controlsIn fromClient rest else controlsIn fromClient rest
+  | .inject _ _ _ :: rest => controlsIn fromClient rest
+
+/-- no close event (close frame, EOF, protocol failure) in this event -/
+def Ev.noClose : Ev → Bool
+  | .data _ evs => evs.all (fun e => !e.isClose)
+  | .inject _ _ _ => true
+
 /-- a burst of frames is one complete message: only the last frame has `message_finished` -/
 def wellFramed : List (Bytes × Bool) → Bool
   | [] => false
